@@ -50,7 +50,7 @@ class Requests(Part):
     def cases(self, ctx):
         rng = ctx.rng
         cases = []
-        n = 6 if ctx.quick else 8
+        n = 6 if ctx.quick else 10
         r = tlc.run("SurrogateGen", GEN_CFG % n, ctx.scratch, workers=4, name="SurrogateGen", timeout=1800)
         behs = sorted({b[1] for b in r.printed("BEH")})
         if not behs:
@@ -64,7 +64,7 @@ class Requests(Part):
                 cases.append({"kind": "beh", "flavour": fl, "ts": beh["ts"], "trained0": beh["trained0"], "accepts": beh["accepts"],
                               "cseed": rng.randrange(1 << 30)})
         # beyond the model: long random request sequences with larger train steps
-        for _ in range(60 if ctx.quick else 800):
+        for _ in range(60 if ctx.quick else 5000):
             cases.append({"kind": "random", "flavour": rng.choice(["custom", "custom", "scikit", "eval"]), "ts": rng.choice([0, 1, 2, 3, 5, 7, 10]),
                           "trained0": rng.random() < 0.3, "accepts": [rng.random() < 0.6 for _ in range(rng.randint(5, 60))],
                           "cseed": rng.randrange(1 << 30)})
